@@ -97,6 +97,7 @@ Definition instr_args_text (fs : fspell) (i : instr) : result (list (Z * list pi
         match i_args i with
         | [ARef _ ty; ARef _ tb] =>
             if tb =? 0 then Ok [group_arg "type" (dec ty)]
+            else if text_ci_table_first then Ok [word_arg (dec tb); group_arg "type" (dec ty)]
             else Ok [group_arg "type" (dec ty); group_arg "const.i64" (dec tb)]
         | _ => Internal TypeError
         end
@@ -195,7 +196,10 @@ Definition parse_operand (fs : fspell) (k : akind) : treader arg :=
     | KF64 => make_float (parse64 fs) ts
     | KU32 => match ts with TInt z :: r => Ok (AInt z, r) | _ => Internal NotImplemented end
     | KBrTable => let p := parse_labels ts in Ok (ARefs (fst p), snd p)
-    | KU8 => Ok (AInt 0, ts)
+    | KU8 =>
+        if text_u8_consumes then
+          match ts with TInt z :: r => Ok (AInt z, r) | _ => Ok (AInt 0, ts) end
+        else Ok (AInt 0, ts)
     | _ => Internal NotImplemented
     end.
 
